@@ -40,7 +40,9 @@ META = dict(
     tie_theorems=['Onsager.C15.src_formats_are_model', 'Onsager.C15.src_phases_are_model'],
     rule='calculators: Interstitial and VacancyMediated on the crystal zoo (2-D, cubic, hexagonal, multi-site, low '
          'symmetry) plus crystals with coordinates on rounding boundaries; user dictionaries: random subset of classes, '
-         'random member tag(s) per class, injected duplicates, bogus tags, malformed values; a case is one '
+         'random member tag(s) per class, injected duplicates, bogus tags, malformed values; object reuse: several calculators '
+         '(both kinds, other cutoffs, sub-networks, other species) built in sequence from ONE Crystal object, each compared with '
+         'the one built from a new Crystal; a case is one '
          '(calculator, dictionary); non-trivial = at least one class supplied and at least one not; distinct by content',
     trusted=['Python ast extraction of format constants and tags2preene loop structure (harness/props/c15.py: extract)',
              'float -> exact rational via float.as_integer_ratio; user values are floats (ints would be converted by numpy)'],
@@ -330,6 +332,16 @@ def _oracle_tag_geometry(ctx, label, kind, d):
             if nbad <= 3:
                 ctx.violation('tag-names-wrong-%s:%s' % (bad, ty),
                               'tag %s does not name the %s member it indexes (%s)' % (tag, ty, bad), rep)
+    # as many tag classes and members as the calculator's geometry has, type by type
+    shape = {}
+    for ty, k, m, want, vecs in _named_geometry(d, kind):
+        shape.setdefault(ty, {}); shape[ty][k] = shape[ty].get(k, 0) + 1
+    for ty, classes in d.tags.items():
+        geo = [shape.get(ty, {}).get(k, 0) for k in range(max(shape.get(ty, {}).keys(), default=-1) + 1)]
+        if [len(c) for c in classes] != geo:
+            ctx.violation('tag-classes-do-not-match-geometry:' + ty,
+                          'tags[%s] has classes of sizes %s, the calculator has %s' % (ty, [len(c) for c in classes], geo),
+                          dict(calculator=label, type=ty, tags=[list(c) for c in classes][:6]))
     # tags of one class are pairwise distinct, and the classes of one type are as many as the geometry has
     for ty, classes in d.tags.items():
         for k, cls in enumerate(classes):
@@ -482,6 +494,101 @@ def _compare(ctx, lines, expects, metas, what):
     return nd
 
 
+def _fresh_crystal(crys):
+    """the same crystal from its constructor: a new object that no calculator has touched"""
+    from onsager import crystal
+    return crystal.Crystal(crys.lattice.copy(), [[u.copy() for u in b] for b in crys.basis], chemistry=list(crys.chemistry),
+                           spins=crys.spins, threshold=crys.threshold, noreduce=True)
+
+
+def _build(kind, crys, chem, cut, classes, nthermo=1):
+    """calculator of `kind` on `crys` for species `chem` from the jump network of cutoff `cut` restricted to `classes`"""
+    from onsager import OnsagerCalc
+    jn = crys.jumpnetwork(chem, cut)
+    if classes is not None: jn = [jn[c] for c in classes if c < len(jn)]
+    sl = crys.sitelist(chem)
+    if kind == 'vacancy':
+        return OnsagerCalc.VacancyMediated(crys, chem, sl, jn, nthermo, NGFmax=2)
+    return OnsagerCalc.Interstitial(crys, chem, sl, jn)
+
+
+def _reuse_plans(ctx):
+    """(label, crystal, [ (kind, chem, cutoff, classes) ... ]) : calculators to be built IN SEQUENCE from one Crystal object"""
+    plans = []
+    for name in (['hcp', 'rect2', 'b2', 'tet1'] if ctx.quick else ['hcp', 'rect2', 'b2', 'tet1', 'tri', 'tric', 'pol2', 'fcc', 'hon']):
+        crys, chem, cut = cm.get(name)
+        ncls = len(crys.jumpnetwork(chem, cut))
+        steps = [('vacancy', chem, cut, None), ('interstitial', chem, cut, None)]
+        for c in range(min(ncls, 3)):
+            if ncls > 1: steps.append(('vacancy', chem, cut, [c])); steps.append(('interstitial', chem, cut, [c]))
+        if ncls > 2: steps.append(('vacancy', chem, cut, list(range(1, ncls))))
+        steps.append(('vacancy', chem, cut * 1.45, None)); steps.append(('interstitial', chem, cut * 1.45, None))
+        for other in range(crys.Nchem):
+            if other != chem: steps.append(('vacancy', other, cut, None)); steps.append(('interstitial', other, cut, None))
+        plans.append((name, crys, steps))
+    for label, crys, chem, cut in _interstitial_crystals()[:2 if ctx.quick else 4]:
+        steps = [('interstitial', chem, cut, None), ('interstitial', chem, cut * 1.3, None), ('interstitial', chem, cut, [0]),
+                 ('vacancy', 0, 1.01, None), ('interstitial', 0, 1.01, None)]
+        plans.append((label, crys, steps))
+    return plans
+
+
+def _calc_outcome(fn):
+    try: return ('ok', fn())
+    except Exception as e: return ('raises', type(e).__name__, str(e)[:200])
+
+
+def _reuse(ctx):
+    """Several calculators (VacancyMediated and Interstitial; other cutoffs, sub-networks, other species) built one after the
+    other from ONE Crystal object, in a random order, each compared with the same calculator built from a freshly
+    constructed Crystal: tags, tag dictionaries, tags2preene; plus the tag-text oracle on the calculator itself."""
+    rng = ctx.rng
+    for label, crys0, steps in _reuse_plans(ctx):
+        shared = _fresh_crystal(crys0)            # one object for the whole sequence
+        order = list(steps)
+        first = order[0]
+        rest = order[1:]; rng.shuffle(rest)
+        order = [first] + rest + [first]          # the first request again at the end: results must not depend on what came between
+        hist = []
+        for kind, chem, cut, classes in order:
+            hist.append([kind, int(chem), float(cut), classes])
+            rep = dict(crystal=label, lattice=crys0.lattice.tolist(), basis=[[u.tolist() for u in b] for b in crys0.basis],
+                       built_in_sequence_from_one_Crystal=[list(h) for h in hist])
+            a = _calc_outcome(lambda: _build(kind, shared, chem, cut, classes))
+            b = _calc_outcome(lambda: _build(kind, _fresh_crystal(crys0), chem, cut, classes))
+            ctx.case(('reuse', label, len(hist), kind, chem, cut, str(classes)), nontrivial=len(hist) > 1)
+            ctx.count('crystal-reuse:' + kind)
+            if a[0] != b[0] or (a[0] == 'raises' and a[1] != b[1]):
+                ctx.violation('crystal-reuse:construction-differs:' + kind,
+                              'building the calculator from the reused Crystal %s, from a new Crystal %s' % (a[:2] if a[0] != 'ok' else 'works', b[:2] if b[0] != 'ok' else 'works'), rep)
+                continue
+            if a[0] != 'ok': continue
+            da, db = a[1], b[1]
+            tag = 'calculator #%d built from ONE Crystal object (%s) in the sequence %s' % (len(hist), label, [list(h) for h in hist])
+            _oracle_tags(ctx, tag, da)
+            _oracle_tag_geometry(ctx, tag, kind, da)
+            if da.tags != db.tags or da.tagdict != db.tagdict or da.tagdicttype != db.tagdicttype:
+                ty = next((t for t in db.tags if da.tags.get(t) != db.tags[t]), '?')
+                ctx.violation('crystal-reuse:tags-differ:' + ty,
+                              'tags[%s] of a calculator built from a Crystal that other calculators used before differ from those on a new Crystal' % ty,
+                              dict(rep, reused=[list(c) for c in da.tags.get(ty, [])][:8], fresh=[list(c) for c in db.tags.get(ty, [])][:8]))
+                continue
+            if kind == 'vacancy':
+                for _ in range(2):
+                    u = {}
+                    for ty, cl in db.tags.items():
+                        for cls in cl:
+                            if rng.random() < 0.6: u[rng.choice(cls)] = (float(np.float64(rng.lognormvariate(0, .4))), float(np.float64(rng.gauss(0, 1))))
+                    ra = _calc_outcome(lambda: da.tags2preene(dict(u), VERBOSE=True))
+                    rb = _calc_outcome(lambda: db.tags2preene(dict(u), VERBOSE=True))
+                    same = ra[0] == rb[0] and (ra[0] != 'ok' or (all(cm.same_bits(ra[1][0][k], rb[1][0][k]) for k in rb[1][0])
+                                                                 and ra[1][1:] == rb[1][1:]))
+                    if not same:
+                        ctx.violation('crystal-reuse:tags2preene-differs', 'tags2preene on the reused-Crystal calculator %s, on the new-Crystal one %s'
+                                      % (ra[:2] if ra[0] != 'ok' else 'returns', rb[:2] if rb[0] != 'ok' else 'returns'), dict(rep, user=list(u)))
+                        break
+
+
 def _run(ctx, nuser):
     rng = ctx.rng
     calcs = list(_calculators(ctx))
@@ -541,7 +648,9 @@ def _run(ctx, nuser):
 
 def run(ctx):
     _run(ctx, 30 if ctx.quick else 400)
+    _reuse(ctx)
 
 
 def search(ctx, reasons):
     _run(ctx, 120)
+    _reuse(ctx)
